@@ -12,6 +12,7 @@ explicit BEGIN/COMMIT/ROLLBACK statement (those are outside the property's
 quantifier for `Transaction` requests; the model still executes them faithfully).
 -/
 import RqModel.Lemmas.Exec
+import RqModel.Gen.RollbackCtx
 namespace C13
 open RqModel.Exec
 
@@ -159,6 +160,49 @@ theorem rollback_on_error_leaves_nothing (db : Db) (r : Req) (pre body post : Li
 
 example : (request ⟨[7], none⟩ ⟨false, true, [.ok 1, .begin, .ok 2, .execFail, .ok 3, .commit]⟩).db = ⟨[7, 1], none⟩ := by
   decide
+
+/-! #### the failure is the request's context running out -/
+
+/-- The same when the failure is a TIMEOUT: the request's context expires (deadline, cancellation)
+during a slow read inside the explicit transaction - SQLite interrupts the read and leaves the
+transaction open. What was committed before the BEGIN stays, nothing of the body is applied, the
+connection is no longer inside a transaction. Both paths. (An instance of
+`rollback_on_error_leaves_nothing`: `timeout` is a failing statement.) -/
+theorem rollback_on_error_after_timeout (db : Db) (r : Req) (pre body1 body2 post : List Stmt)
+    (hdb : db.open_ = none) (htx : r.tx = false) (hrb : r.rb = true)
+    (hs : r.stmts = pre ++ .begin :: ((body1 ++ .timeout :: body2) ++ post))
+    (hnpre : NoCtl pre) (hokpre : pre.any fails = false)
+    (hnbody : NoCtl (body1 ++ .timeout :: body2)) :
+    (execute db r).db = ⟨db.committed ++ writes pre, none⟩ ∧
+    (request db r).db = ⟨db.committed ++ writes pre, none⟩ :=
+  rollback_on_error_leaves_nothing db r pre (body1 ++ .timeout :: body2) post hdb htx hrb hs hnpre hokpre hnbody
+    (by simp [fails])
+
+/-- … and a COMMIT sent afterwards finds no transaction (it fails and changes nothing) -/
+example :
+    (execute ⟨[7], none⟩ ⟨false, true, [.begin, .ok 1, .timeout, .ok 2, .commit]⟩) = ⟨⟨[7], none⟩, [.eStale, .e 2, .err], false⟩ ∧
+    (request ⟨[7], none⟩ ⟨false, true, [.begin, .ok 1, .timeout, .ok 2, .commit]⟩) = ⟨⟨[7], none⟩, [.q [], .e 2, .err], false⟩ ∧
+    (execute ⟨[7], none⟩ ⟨false, false, [.commit]⟩) = ⟨⟨[7], none⟩, [.err], false⟩ := by decide
+
+/-- WHY the rollback must not be issued on the request's own context: that context is dead after a
+timeout, and a ROLLBACK handed over on it need not run - the transaction would stay open on the
+node's only read-write connection and a later COMMIT would make the failed transaction's row durable.
+On the background context it always runs. -/
+theorem rollback_on_dead_request_context_witness :
+    rollbackOn .request true ⟨[7], some [7, 1]⟩ = ⟨[7], some [7, 1]⟩ ∧
+    sqlRun (rollbackOn .request true ⟨[7], some [7, 1]⟩) .commit = some ⟨[7, 1], none⟩ ∧
+    rollbackOn .background true ⟨[7], some [7, 1]⟩ = ⟨[7], none⟩ ∧
+    sqlRun (rollbackOn .background true ⟨[7], some [7, 1]⟩) .commit = none := by decide
+
+/-- the model's choice is the code's (regenerated from db/db.go on every run): both ROLLBACK statements
+issued for a RollbackOnError request - `handleError` in executeWithConn and `abortOnError` in
+RequestWithContext - are handed over with `context.Background()` -/
+theorem rollback_issued_on_background :
+    RqModel.Gen.RollbackCtx.rollbackOnErrorContexts =
+      ["executeWithConn: context.Background()", "RequestWithContext: context.Background()"] ∧
+    rollbackCtx = .background ∧
+    ∀ s db, rollbackAfter s db = rollbackIgnore db :=
+  ⟨by decide, rfl, rollbackAfter_eq⟩
 
 theorem run_rollback_autocommit (succ : Db → Stmt → Res) (db : Db) (r : Req)
     (pre post : List Stmt) (f : Stmt)
